@@ -32,6 +32,10 @@ def main():
             from .check_c03 import run
 
             sys.exit(run(a.tier))
+        if prop == "C09":
+            from .check_c09 import run
+
+            sys.exit(run(a.tier))
         if prop == "C13":
             from .check_c13 import run
 
